@@ -48,12 +48,13 @@ def run(rep, tier):
                 for o in ol:
                     cases.append((js, cname, layout, "case_xof", (a, n, o), "xof%s message %d output %d" % (sfx, n, o),
                                   "ascon_xof%s_squeeze" % sfx))
-            for fixed in (0, 1, 16, 32, 33, (1 << 29) - 1, 1 << 29, (1 << 29) + 5):
+            for fixed in (0, 1, 16, 32, 33, (1 << 29) - 1, 1 << 29, (1 << 29) + 5, 1 << 31, (1 << 32) - 1, 1 << 32, (1 << 32) + 5,
+                          (1 << 32) + 32, (1 << 40) + 64, (1 << 64) - 1):
                 cases.append((js, cname, layout, "case_xof_fixed", (a, fixed, 9, 40 if fixed in (32, 33) else 9),
                               "xof%s fixed length %d" % (sfx, fixed), "ascon_xof%s_init_fixed" % sfx))
             for nm in names:
                 for cl in (0, 1, 9):
-                    for fixed in (0, 32, 20):
+                    for fixed in (0, 32, 20, 1 << 29, (1 << 32) + 20):
                         cases.append((js, cname, layout, "case_cxof", (a, nm, cl, 9, 33, fixed),
                                       "cxof%s name %s custom %d declared %d" % (sfx, "NULL" if nm is None else len(nm), cl, fixed),
                                       "ascon_xof%s_init_custom" % sfx))
